@@ -168,50 +168,45 @@ def rule_exit(bin_crate, lib_crate):
             out.ok("run:single-site", *bin_crate.loc(run, s), detail="one call site, ExecutionMode::Normal for both file and -e sources")
         else:
             out.violation("run:single-site", *bin_crate.loc(run, s), detail="parse_and_evaluate is not called with ExecutionMode::Normal")
-    # Break -> Err
-    cf_matches = [n for n in walk(run["body"]) if n.get("k") == "Match" and str(n.get("src")) == "Normal" and bin_crate.ty(peel(n["scrut"])).startswith(CF)]
-    brk_ok = False
-    for mm in cf_matches:
-        p = place_path(mm["scrut"])
-        if not (p and p[2] and p[2][-1] == "control_flow"):
-            continue
-        for a in mm["arms"]:
-            vs = pat_variants(a["pat"], CF)
-            if vs == {"Break"} or vs is None:
-                rets = [n for n in walk(a["body"]) if n.get("k") == "Ret" and n.get("e") is not None and is_ctor(n["e"], RESULT, "Err")]
-                val = tail_value(a["body"])
-                if rets or is_ctor(val, RESULT, "Err"):
-                    brk_ok = True
-                    out.ok("run:Break->Err", *bin_crate.loc(run, a["pat"]), detail="a Break from parse_and_evaluate makes Cli::run return Err")
-                else:
-                    out.violation("run:Break->Err", *bin_crate.loc(run, a["pat"]), detail="a Break (failed input) does not make Cli::run return Err")
-                    brk_ok = True
-            if vs == {"Continue"}:
-                val = tail_value(a["body"])
-                if not is_ctor(val, RESULT, "Ok"):
-                    out.violation("run:Continue->Ok", *bin_crate.loc(run, a["pat"]), detail="a successful input does not map to Ok(())")
-                else:
-                    out.ok("run:Continue->Ok", *bin_crate.loc(run, a["pat"]), detail="a successful input maps to Ok(())")
-    if not brk_ok:
-        out.error("anchor missing: `match result.control_flow` in Cli::run")
-    # the function result is the accumulated run_result (only combined with `.and`)
-    rv = tail_value(run["body"])
-    lid = local_of(rv)
-    acc_ok = False
-    if lid is not None:
-        acc_ok = True
-        for n in walk(run["body"]):
-            if n.get("k") == "Assign" and local_of(n["l"]) == lid:
-                r = peel(n["r"])
-                if not (r.get("k") == "MethodCall" and r["name"] == "and" and local_of(r["recv"]) == lid):
-                    acc_ok = False
-            if n.get("k") == "Let" and n.get("pat", {}).get("k") == "Binding" and n["pat"]["id"] == lid and n.get("init") is not None:
-                if not is_ctor(n["init"], RESULT, "Ok"):
-                    acc_ok = False
-    if acc_ok:
-        out.ok("run:result-accumulates", rf, run["line"], "Cli::run returns `run_result`, initialised Ok(()) and only combined with `.and(..)`")
+    # Break -> Err, decided on the MIR of Cli::run by a forward dataflow of Result status: from every edge on which
+    # the control_flow of a parse_and_evaluate outcome is known to be Break, every path to the function's return
+    # yields Err (whatever the idiom: match + bail!, if is_break(), accumulated `.and(..)`); and an Err value is
+    # constructed only on such paths (a successful input never produces a failure status).
+    from mirlib import Mir
+    from statusflow import RESULT as _R, break_heads, flow
+
+    m = Mir(bin_crate, bin_crate.find_mir("Cli::run"))
+    heads, producers = break_heads(m, "Cli::parse_and_evaluate")
+    if not producers:
+        out.error("anchor missing: call of Cli::parse_and_evaluate in the MIR of Cli::run")
+    elif not heads:
+        out.violation("run:Break->Err", rf, run["line"], "Cli::run never tests the control_flow of the parse_and_evaluate outcome for Break: a failed input cannot make it return Err")
     else:
-        out.violation("run:result-accumulates", rf, run["line"], "the value returned by Cli::run is not the `.and`-accumulated status of the inputs")
+        prod_blocks = [i for i, blk in enumerate(m.blocks) if blk["term"].get("k") == "call" and (blk["term"]["f"].get("inst") or blk["term"]["f"].get("fn") or "").endswith("Cli::parse_and_evaluate")]
+        for (h, sw, line) in heads:
+            rets, reached = flow(m, h)
+            bad = [b for b, v in rets.items() if v != "Err"]
+            if bad:
+                again = [p for p in prod_blocks if p in reached]
+                out.violation("run:Break->Err", rf, line, "after an input ended in Break, Cli::run can still return a value that is not known to be Err (return at line %s%s): the failure of an earlier input is lost" % (m.blocks[bad[0]]["term"]["s"][0], "; the loop continues with the next input" if again else ""))
+            else:
+                out.ok("run:Break->Err", rf, line, "from the Break edge every path to the return yields Err (%d return block(s))" % len(rets))
+        # Err constructed only on Break paths
+        dominated = set()
+        for (h, _sw, _l) in heads:
+            for b in range(m.n):
+                if m.dominates(h, b):
+                    dominated.add(b)
+        stray = []
+        for bi, blk in enumerate(m.blocks):
+            for st in blk["stmts"]:
+                rv = st.get("rv") or {}
+                if st.get("k") == "assign" and rv.get("rv") == "aggr" and rv.get("adt") == _R and rv.get("variant") == "Err" and bi not in dominated:
+                    stray.append(st["s"][0])
+        if stray:
+            out.violation("run:Continue->Ok", rf, stray[0], "Cli::run constructs an Err status outside the paths on which an input ended in Break")
+        else:
+            out.ok("run:Continue->Ok", rf, run["line"], "no Err status is constructed except on Break paths (`?` propagation of I/O errors aside)")
     # -e expressions joined by "\n"
     joined = False
     for n in walk(run["body"]):
